@@ -96,6 +96,9 @@ const c22WaitBudget = 5 * time.Second
 
 var c22W *c22World
 
+// c22Skip: the current case needs an IPv6 loopback that this host does not have
+var c22Skip bool
+
 func (w *c22World) close() {
 	if w.be != nil {
 		w.be.release()
@@ -152,8 +155,31 @@ func c22Reset(ctrl, decl string) string {
 		client = c
 		go h.Handle(server)
 	} else {
-		ln, err := net.Listen("tcp4", "127.0.0.1:0")
-		must(err)
+		// t<k>: IPv4 listener; d<k>: dual-stack listener (the IPv4 peer shows up IPv4-mapped);
+		// s1: IPv6 listener on [::1], client from ::1
+		network, laddr := "tcp4", "127.0.0.1:0"
+		var local net.IP
+		switch ctrl[0] {
+		case 't':
+			local = c22SenderIP(int(ctrl[1] - '0'))
+		case 'd':
+			network, laddr = "tcp", "[::]:0"
+			local = c22SenderIP(int(ctrl[1] - '0'))
+		case 's':
+			network, laddr = "tcp6", "[::1]:0"
+			local = net.IPv6loopback
+		default:
+			return "bad-op"
+		}
+		ln, err := net.Listen(network, laddr)
+		if err != nil {
+			if ctrl[0] == 't' {
+				must(err)
+			}
+			w.close()
+			c22Skip = true
+			return "skip no-ipv6"
+		}
 		w.ln = ln
 		go func() {
 			c, err := ln.Accept()
@@ -163,9 +189,22 @@ func c22Reset(ctrl, decl string) string {
 			h.Handle(c)
 			c.Close()
 		}()
-		d := net.Dialer{LocalAddr: &net.TCPAddr{IP: c22SenderIP(int(ctrl[1] - '0'))}, Timeout: 2 * time.Second}
-		c, err := d.Dial("tcp4", ln.Addr().String())
-		must(err)
+		port := ln.Addr().(*net.TCPAddr).Port
+		target := fmt.Sprintf("127.0.0.1:%d", port)
+		dnet := "tcp4"
+		if ctrl[0] == 's' {
+			target, dnet = fmt.Sprintf("[::1]:%d", port), "tcp6"
+		}
+		d := net.Dialer{LocalAddr: &net.TCPAddr{IP: local}, Timeout: 2 * time.Second}
+		c, err := d.Dial(dnet, target)
+		if err != nil {
+			if ctrl[0] == 't' {
+				must(err)
+			}
+			w.close()
+			c22Skip = true
+			return "skip no-ipv6"
+		}
 		client = c
 	}
 	w.ctrl = client
@@ -180,6 +219,8 @@ func c22Reset(ctrl, decl string) string {
 		addr = append([]byte{4}, make([]byte, 16)...)
 	case decl == "d":
 		addr, port = append([]byte{3, 11}, "example.com"...), 53
+	case decl == "v6":
+		addr, port = append([]byte{4}, net.IPv6loopback...), 4000
 	case len(decl) == 1:
 		k := int(decl[0] - '0')
 		addr, port = append([]byte{1}, c22SenderIP(k)...), portOf(k)
@@ -205,14 +246,22 @@ func c22Reset(ctrl, decl string) string {
 	req = append(req, byte(port>>8), byte(port))
 	_, err = client.Write(req)
 	must(err)
-	rep := make([]byte, 10)
+	rep := make([]byte, 4)
 	_, err = io.ReadFull(client, rep)
+	must(err)
+	alen := 4
+	if rep[3] == 4 { // an IPv6 control connection gets its relay address as IPv6
+		alen = 16
+	}
+	rest := make([]byte, alen+2)
+	_, err = io.ReadFull(client, rest)
 	must(err)
 	client.SetDeadline(time.Time{})
 	if rep[1] != 0 {
 		return fmt.Sprintf("err associate %d", rep[1])
 	}
-	w.relay = &net.UDPAddr{IP: net.IPv4(127, 0, 0, 1), Port: int(rep[8])<<8 | int(rep[9])}
+	// the relay socket itself is IPv4 (udp4 on 0.0.0.0): datagrams go to 127.0.0.1:<port>
+	w.relay = &net.UDPAddr{IP: net.IPv4(127, 0, 0, 1), Port: int(rest[alen])<<8 | int(rest[alen+1])}
 	for dl := time.Now().Add(time.Second); time.Now().Before(dl); { // SetSOCKS5UDPAssociation happens before the reply; be safe
 		w.be.mu.Lock()
 		a := w.be.assoc
@@ -438,7 +487,11 @@ func c22Reply(w *c22World) string {
 func c22Run(line string) string {
 	f := fields(line)
 	if f[0] == "reset" && len(f) == 3 {
+		c22Skip = false
 		return c22Reset(f[1], f[2])
+	}
+	if c22Skip {
+		return "skip no-ipv6"
 	}
 	if c22W == nil {
 		return "err no-case"
@@ -492,6 +545,16 @@ func c22Gen(w *bufio.Writer, seed int64, tier string) {
 					}
 					emitCase(ctrl, decl, []string{fmt.Sprintf("%d v", a), fmt.Sprintf("%d v", b), "1 v", "2 v"})
 				}
+			}
+		}
+	}
+	// control connections over IPv6 (::1) and through a dual-stack listener (IPv4-mapped peer): the relay
+	// socket is IPv4, so for an IPv6 owner NO sender may be relayed; for a mapped peer only 127.0.0.k
+	for _, ctrl := range []string{"s1", "d1", "d2"} {
+		for _, decl := range []string{"u", "u6", "v6", "1", "m1", "2z"} {
+			emitCase(ctrl, decl, []string{"2 v", "1 v", "3 v", "4 v", "2 v"})
+			if decl == "u" || decl == "m1" {
+				emitCase(ctrl, decl, []string{"1 v", "2 v", "1 i", "4 v"})
 			}
 		}
 	}
